@@ -44,7 +44,7 @@ func (check) Cases(tier string) int {
 const typeGroup = 4
 
 func (check) Rule() string {
-	return "one (type, pre-fill, configuration) triple per case. Type: derived from idx/4 (4 consecutive cases share it); 7 in 8 generated with reflect.StructOf (3-8 top-level fields, nesting depth <= 2; kinds bool, int/8/16/32/64, uint/8/16/32/64, float32/64, string, time.Duration, pointers to those, nested structs by value / by pointer / inline (inline, squash), []T and [N]T of primitives, []struct, []*struct, map[string]T, map[string]*struct, map[string]struct; *ucfg.Config fields (pre-filled from a random object or list tree over a 4-key pool, or nil), config tags with and without rename, ignore, merge/replace/append/prepend on lists and *Config fields and -- 2 in 5 -- merge/replace/append/prepend on struct-typed fields (by value, by pointer, inline; merge twice as often as each other option, because it only shows against an outer policy), validate tags min/max/positive/nonzero on fields that exist before Unpack; the hand-written LibConn, LibLimits, LibPlain (unexported fields, an embedded unexported struct, ignored fields, InitDefaults unconditional / conditional / touching an unexported field, Validate method) and LibPort (primitive with InitDefaults) as ordinary fields by value and by pointer), 1 in 8 the hand-written LibTop. Pre-fill: every field non-zero w.p. 2/3 (nil and empty slices/maps, nil pointers otherwise; validated fields always valid). Configuration: nested map[string]interface{} through NewFrom(PathSep(\".\")), every field path mentioned w.p. 1/2 (1 in 16 of those with an explicit null), numbers as int/int64/uint64/float64/decimal string, durations as string/seconds, ignored and unexported names mentioned w.p. 1/3 with arbitrary data, map settings over a 5-key pool shared with the pre-fill, *Config settings as object / list trees of the shape the field already holds over the key pool of the pre-fill (depth <= 3, primitives, lists of primitives, lists of objects). Success half: Unpack into a deep copy under each of none / AppendValues / PrependValues / ReplaceValues / ReplaceArrValues, compare field-path-wise with the model. Failure half (under one of the five options, drawn per case): for every configurable field position in declaration order (nested, inline and pointee positions included) one fault at a time (up to two different ones per position: unparsable string, overflow, negative into unsigned, bool/object/list into primitive, string into struct/map, primitive into *Config, wrong array length, faulty list element / struct-list element / map value, failing validate tag, failing Validate method) is grafted onto the configuration and the struct passed in is compared with its snapshot. Plus per case a top-level []int / []string target and a top-level map[string]int target under the drawn option. Non-trivial = the type has >= 3 configurable leaf fields, the configuration mentions >= 1 and leaves out >= 1 of them; distinct = distinct (type, pre-fill, configuration, drawn option)."
+	return "one (type, pre-fill, configuration) triple per case. Type: derived from idx/4 (4 consecutive cases share it); 6 in 8 generated with reflect.StructOf (3-8 top-level fields, nesting depth <= 2; kinds bool, int/8/16/32/64, uint/8/16/32/64, float32/64, string, time.Duration, pointers to those, nested structs by value / by pointer / inline (inline, squash), []T and [N]T of primitives, [N]T (N <= 3) of structs (generated ones of primitives, or LibPlain with its unexported, ignored and embedded fields), of map[string]T and of []T, []struct, []*struct, map[string]T, map[string]*struct, map[string]struct; *ucfg.Config fields (pre-filled from a random object or list tree over a 4-key pool, or nil), config tags with and without rename, ignore, merge/replace/append/prepend on lists and *Config fields and -- 2 in 5 -- merge/replace/append/prepend on struct-typed fields (by value, by pointer, inline; merge twice as often as each other option, because it only shows against an outer policy), validate tags min/max/positive/nonzero on fields that exist before Unpack; the hand-written LibConn, LibLimits, LibPlain (unexported fields, an embedded unexported struct, ignored fields, InitDefaults unconditional / conditional / touching an unexported field, Validate method) and LibPort (primitive with InitDefaults) as ordinary fields by value and by pointer; the self-unpacking LibSelf (Unpack(*Config), rejects lo > hi itself after having stored), LibSelfV (Unpack(*Config), Validate method rejects), LibSelfAny (Unpack(interface{})) likewise; half of the generated types carry a second tag set under the key alt on 4 fields in 5: other name, ignore flag and merge policy drawn independently, the hand-written types carry a few alt tags too), 1 in 8 the hand-written LibTop, 1 in 8 one of the three self-unpacking types as the top-level target. Pre-fill: every field non-zero w.p. 2/3 (nil and empty slices/maps, nil pointers otherwise; validated fields always valid). Configuration: nested map[string]interface{} through NewFrom(PathSep(\".\")), every field path mentioned w.p. 1/2 (1 in 16 of those with an explicit null), numbers as int/int64/uint64/float64/decimal string, durations as string/seconds, ignored and unexported names mentioned w.p. 1/3 with arbitrary data, map settings over a 5-key pool shared with the pre-fill, *Config settings as object / list trees of the shape the field already holds over the key pool of the pre-fill (depth <= 3, primitives, lists of primitives, lists of objects). Every array element is pre-filled on its own and its setting mentions a part of it (a subset of the fields / keys, a list of another length). Success half: Unpack into a deep copy under each of none / AppendValues / PrependValues / ReplaceValues / ReplaceArrValues with the default struct tag; the same type is also unpacked under StructTag(alt) with a configuration drawn from the alt reading of the type (once at a random place among those five calls, the front included, once after them) and then under the default tag again; every result is compared field-path-wise with the model of the tag set in use. A deviation is re-run on a twin type (the same struct tags plus one meaningless key, values converted) to tell dependence on earlier calls from a wrong result. Failure half (under one of the five options and -- 1 in 3 -- under StructTag(alt), drawn per case): for every configurable field position in declaration order (nested, inline and pointee positions included) one fault at a time (up to two different ones per position: unparsable string, overflow, negative into unsigned, bool/object/list into primitive, string into struct/map, primitive into *Config, wrong array length, faulty list element / struct-list element / map value / element of a composite array (the elements before it are merged first), failing validate tag, failing Validate method) is grafted onto the configuration and the struct passed in is compared with its snapshot. Plus per case a top-level []int / []string target and a top-level map[string]int target under the drawn option. Non-trivial = the type has >= 3 configurable leaf fields, the configuration mentions >= 1 and leaves out >= 1 of them; distinct = distinct (type, pre-fill, configuration, drawn option)."
 }
 
 func (check) Assumptions() []string {
@@ -54,9 +54,13 @@ func (check) Assumptions() []string {
 		"InitDefaults is modelled only where the doc comment states it: the top-level struct, struct-typed fields by value (also without a setting), pointer fields only when the configuration has a setting for them, primitives with InitDefaults; all InitDefaults of the hand-written types are idempotent, the primitive one is a constant, so neither the number of calls nor the value it is called on (pre-filled or zero) is pinned",
 		"an explicit null is 'no setting'; an empty object or empty list is never generated; null elements inside lists are never generated",
 		"expected values of primitives come from the generator (value and its configuration spelling are drawn together); conversions proper are C03's business: only exact ones are used (floats are multiples of 1/4 or float64 literals into float64, durations whole or quarter seconds)",
-		"not compared: lists of structs whose active policy replaces (not demanded); entries of a map the configuration does not mention when the active policy replaces; whether a mentioned pointer / map field keeps its identity; nil versus empty for mentioned lists; which error a failed Unpack returns and whether an injected fault is reported at all (counted as fault_not_raised)",
+		"a list whose active policy replaces consists of the new values alone: an element of a replaced list of structs is the zero value with the settings of its position applied, nothing of the old element at that position survives (doc comment: 'replaced by the new values')",
+		"a null at a list position is never generated and what it does to a pre-filled slot is not compared: the statement does not pin it down. For a struct field a null is 'no setting' (the field is left alone), but the positions of a list can not be absent, and C01's merge statement lets a null in the merged-in list win over a primitive; so both 'slot untouched' ([nil,5] onto [1,2,3] = [1,5,3]) and 'slot takes the value a fresh unpack of the merged configuration gives' ([0,5,3], what this tree does) can be read into it",
+		"StructTag(t) makes Unpack read names, ignore/inline flags and merge policies from the tag t alone (a field without that tag has its lower-cased name and no options), whatever tags the process used before; validate tags stay under their own key",
+		"the self-unpacking types of this package do, on success, what the library does for an ordinary struct with the same fields (null or absent: untouched), so the same model applies; which of their failures a library version reports is not compared, only that the struct passed in is unchanged afterwards",
+		"not compared: entries of a map the configuration does not mention when the active policy replaces; whether a mentioned pointer / map field keeps its identity; nil versus empty for mentioned lists; which error a failed Unpack returns and whether an injected fault is reported at all (counted as fault_not_raised)",
 		"after a failed Unpack: nested struct values and arrays are compared recursively, pointer and map fields by identity only (contents excluded as in the statement), slices by length, nil-ness and -- primitive elements only -- element values",
-		"validate tags are only generated where the value exists before Unpack (top level, by-value and inline nesting) and pre-fills always pass them, because Unpack validates untouched fields too; struct elements of lists and maps hold primitives only; map[string]struct entries that already exist are never touched (panic on this tree: C07's finding); inline maps, inline pointers, pointers inside lists/maps, lists of lists are not generated (C06/C07)",
+		"validate tags are only generated where the value exists before Unpack (top level, by-value and inline nesting) and pre-fills always pass them, because Unpack validates untouched fields too; struct elements of lists and maps hold primitives only; map[string]struct entries that already exist are never touched (panic on this tree: C07's finding); inline maps, inline pointers, pointers inside lists/maps, lists of lists are not generated (C06/C07); lists inside the elements of an array follow the policy in force for the array field",
 	}
 }
 
@@ -394,7 +398,7 @@ func stripNoise(c *cval) *cval {
 
 type runner struct {
 	res     *harness.R
-	top     *stype
+	top     *stype                  // the type as it reads under the struct tag in use
 	master  reflect.Value           // the pre-filled value; never handed to Unpack
 	cfgs    map[uintptr]*model.Node // the trees of the pre-filled *Config fields of master
 	gopt    globalOpt
@@ -416,13 +420,93 @@ func (rn *runner) unpack(goCfg interface{}, target reflect.Value, ctx func() str
 		rn.res.Inconc("NewFrom failed on generated data: %v; %s", cerr, ctx())
 		return nil, false
 	}
-	panicked, pv, where := harness.Safe(func() { err = c.Unpack(target.Interface(), rn.gopt.opts...) })
+	panicked, pv, where := harness.Safe(func() { err = c.Unpack(target.Interface(), rn.options()...) })
 	rn.res.Eval(1)
 	if panicked {
 		rn.res.Violate("panic:Unpack", "panic %q at %s; %s", pv, where, ctx())
 		return nil, false
 	}
 	return err, true
+}
+
+// options: the global merge option and -- for the second tag set -- StructTag.
+func (rn *runner) options() []ucfg.Option {
+	opts := append([]ucfg.Option{}, rn.gopt.opts...)
+	if rn.top.tagKey != "config" {
+		opts = append(opts, ucfg.StructTag(rn.top.tagKey))
+	}
+	return opts
+}
+
+// twinType rebuilds the generated (unnamed) struct types inside t with one
+// more, meaningless, key in every struct tag. The twin is the same type as
+// far as Unpack is concerned; values convert between the two.
+func twinType(t reflect.Type) reflect.Type {
+	switch t.Kind() {
+	case reflect.Struct:
+		if t.Name() != "" {
+			return t
+		}
+		fs := make([]reflect.StructField, t.NumField())
+		for i := range fs {
+			sf := t.Field(i)
+			fs[i] = reflect.StructField{Name: sf.Name, Type: twinType(sf.Type), Tag: reflect.StructTag(strings.TrimSpace(string(sf.Tag) + ` twin:"1"`))}
+		}
+		return reflect.StructOf(fs)
+	case reflect.Ptr:
+		if t.Name() == "" {
+			return reflect.PtrTo(twinType(t.Elem()))
+		}
+	case reflect.Slice:
+		if t.Name() == "" {
+			return reflect.SliceOf(twinType(t.Elem()))
+		}
+	case reflect.Array:
+		if t.Name() == "" {
+			return reflect.ArrayOf(t.Len(), twinType(t.Elem()))
+		}
+	case reflect.Map:
+		if t.Name() == "" {
+			return reflect.MapOf(t.Key(), twinType(t.Elem()))
+		}
+	}
+	return t
+}
+
+// historyDependent: does the same Unpack (same options, same configuration,
+// an equal pre-filled value) into the twin type give another result than got?
+// Unpack is a function of its arguments; a difference means it depends on what
+// the process unpacked before (the same tags under another StructTag option).
+func (rn *runner) historyDependent(goCfg interface{}, got reflect.Value, failed bool) (bool, string) {
+	tt := twinType(rn.top.typ)
+	if tt == rn.top.typ {
+		return false, ""
+	}
+	src, _ := rn.fresh()
+	tw := reflect.New(tt)
+	tw.Elem().Set(src.Elem().Convert(tt))
+	// Unpack itself is checked on the original type: here only the result counts
+	c, cerr := ucfg.NewFrom(goCfg, ucfg.PathSep("."))
+	if cerr != nil {
+		return false, ""
+	}
+	var err error
+	panicked, _, _ := harness.Safe(func() { err = c.Unpack(tw.Interface(), rn.options()...) })
+	rn.res.Eval(1)
+	if panicked || err != nil {
+		return false, ""
+	}
+	if failed {
+		return true, "no error"
+	}
+	if !got.IsValid() {
+		return false, ""
+	}
+	back := tw.Elem().Convert(rn.top.typ)
+	if equal(back, got, false) {
+		return false, ""
+	}
+	return true, render(back)
 }
 
 func clip(s string, n int) string {
@@ -434,7 +518,7 @@ func clip(s string, n int) string {
 
 func (rn *runner) context(cfg interface{}) func() string {
 	return func() string {
-		return fmt.Sprintf("option=%s config=%s pre-filled=%s type=%s", rn.gopt.name, clip(renderGo(cfg), 1500), clip(render(rn.master), 1500), clip(rn.top.typ.String(), 2000))
+		return fmt.Sprintf("option=%s struct-tag=%s config=%s pre-filled=%s type=%s", rn.gopt.name, rn.top.tagKey, clip(renderGo(cfg), 1500), clip(render(rn.master), 1500), clip(rn.top.typ.String(), 2000))
 	}
 }
 
@@ -455,19 +539,69 @@ func (rn *runner) checkAtomic(got reflect.Value, twin map[uintptr]uintptr, fault
 		case i > faultTop:
 			pos = "after"
 		}
-		rn.res.Violate("struct-modified-on-failure:"+faultClass(faultKind)+":"+pos, "Unpack returned %q but field %s differs: now %s, before %s; %s",
+		what := "struct-modified-on-failure:"
+		if rn.top.selfUnpacks {
+			// the target has its own Unpack method (and it stored something before failing)
+			what = "self-unpacking-target-modified-on-failure:"
+		}
+		rn.res.Violate(what+faultClass(faultKind)+":"+pos, "Unpack returned %q but field %s differs: now %s, before %s; %s",
 			err, d, render(got.Field(i)), render(rn.master.Field(i)), ctx())
 	}
 }
 
+// success runs the success half once and classifies what it finds: deviations
+// that disappear when the same call is made with a twin type are reported as
+// dependence on the struct tags used earlier, all others as they are.
 func (rn *runner) success(cfg *cval) {
+	out := rn.res
+	tmp := harness.NewR(out.Index)
+	rn.res = tmp
+	got, failed := rn.success1(cfg)
+	rn.res = out
+	out.Evals += tmp.Evals
+	for k, v := range tmp.Events {
+		if k != "violations_raw" {
+			out.Ev(k, v)
+		}
+	}
+	for _, s := range tmp.Inconclusive {
+		out.Inconc("%s", s)
+	}
+	if len(tmp.Violations) == 0 {
+		return
+	}
+	goCfg := cfg.toGo()
+	if dep, twinRes := rn.historyDependent(goCfg, got, failed); dep {
+		seen := map[string]bool{}
+		for _, v := range tmp.Violations {
+			class := v.Sig
+			if i := strings.Index(class, ":"); i >= 0 {
+				class = class[:i]
+			}
+			if seen[class] {
+				continue
+			}
+			seen[class] = true
+			out.Violate("unpack-depends-on-struct-tags-used-earlier:"+rn.top.tagKey+":"+class,
+				"the same Unpack into a twin type (the same struct tags plus one meaningless key) gives %s; deviation on the original type: %s", twinRes, v.Detail)
+		}
+		return
+	}
+	for _, v := range tmp.Violations {
+		out.Violate(v.Sig, "%s", v.Detail)
+	}
+}
+
+// success1: got is the value after a successful Unpack; failed: Unpack
+// returned an error for a configuration that is valid by construction.
+func (rn *runner) success1(cfg *cval) (got reflect.Value, failed bool) {
 	res := rn.res
 	goCfg := cfg.toGo()
 	ctx := rn.context(goCfg)
 	target, twin := rn.fresh()
 	err, ok := rn.unpack(goCfg, target, ctx)
 	if !ok {
-		return
+		return reflect.Value{}, false
 	}
 	if err != nil {
 		// the configuration is valid by construction
@@ -478,17 +612,18 @@ func (rn *runner) success(cfg *cval) {
 		}
 		res.Violate(sig, "Unpack returned %q; %s", err, ctx())
 		rn.checkAtomic(target.Elem(), twin, "unexpected-error", -1, err, ctx)
-		return
+		return reflect.Value{}, true
 	}
 	exp := reflect.New(rn.top.typ)
 	exp.Elem().Set(deepCopy(rn.master))
-	m := &modeler{unmodelled: map[*field]bool{}, cfgs: rn.cfgs, cfgExp: map[*field]*model.Node{}}
+	m := &modeler{cfgs: rn.cfgs, cfgExp: map[*field]*model.Node{}}
 	m.applyStruct(rn.top, exp.Elem(), cfg, rn.gopt.pc)
-	k := &comparer{res: res, twin: twin, unmodelled: m.unmodelled, cfgs: rn.cfgs, cfgExp: m.cfgExp, ctx: ctx}
+	k := &comparer{res: res, twin: twin, cfgs: rn.cfgs, cfgExp: m.cfgExp, ctx: ctx}
 	k.cmpStruct(rn.top, rn.master, exp.Elem(), target.Elem(), cfg, rn.gopt.pc, "top", "")
 	if rn.verbose {
-		fmt.Printf("option %s:\n  after %s\n  model %s\n", rn.gopt.name, render(target.Elem()), render(exp.Elem()))
+		fmt.Printf("option %s tag %s:\n  after %s\n  model %s\n", rn.gopt.name, rn.top.tagKey, render(target.Elem()), render(exp.Elem()))
 	}
+	return target.Elem(), false
 }
 
 func (rn *runner) failure(cfg *cval, path []*field, fault *cval, kind string, npos, ipos int) {
@@ -544,6 +679,9 @@ func (rn *runner) monitors(st *stype, where string) {
 	if st.hasValidate {
 		res.SetAdd("methods", "Validate@"+where)
 	}
+	if st.selfUnpacks {
+		res.SetAdd("methods", "Unpack:"+st.typ.Name()+"@"+where)
+	}
 	for _, f := range st.fields {
 		switch {
 		case f.unexported:
@@ -581,6 +719,42 @@ func (rn *runner) monitors(st *stype, where string) {
 	}
 }
 
+// tagDifferences records in what the two tag sets of the type differ.
+func tagDifferences(res *harness.R, a, b *stype) {
+	for i, fa := range a.fields {
+		fb := b.fields[i]
+		if fa.unexported {
+			continue
+		}
+		n := 0
+		if fa.name != fb.name {
+			res.SetAdd("tag_sets_differ_in", "name")
+			n++
+		}
+		if fa.ignore != fb.ignore {
+			res.SetAdd("tag_sets_differ_in", "ignore")
+			n++
+		}
+		if fa.inline != fb.inline {
+			res.SetAdd("tag_sets_differ_in", "inline")
+			n++
+		}
+		if fa.tagPol != fb.tagPol {
+			res.SetAdd("tag_sets_differ_in", "policy:"+fa.shape())
+			n++
+		}
+		if n > 0 {
+			res.Ev("fields_whose_tag_sets_differ", 1)
+		}
+		if fa.sub != nil && fb.sub != nil {
+			tagDifferences(res, fa.sub, fb.sub)
+		}
+		if fa.elem != nil && fa.elem.sub != nil {
+			tagDifferences(res, fa.elem.sub, fb.elem.sub)
+		}
+	}
+}
+
 func tagName(pol string) string {
 	if pol == "default" {
 		return "merge"
@@ -609,6 +783,9 @@ func (rn *runner) listMonitors(st *stype, c *cval, pre reflect.Value, pc polCtx)
 				state = "onto-empty"
 			}
 			rn.res.SetAdd("list_policy", fpc.src+":"+fpc.pol+":"+f.shape()+":"+state)
+			if f.kind == kSliceStruct && replaces(fpc) && state == "onto-filled" {
+				rn.res.Ev("struct_lists_replaced_onto_filled", 1)
+			}
 			if fpc.overridesOuter() && state == "onto-filled" {
 				// a tag option decides against the policy that would be in force without it
 				rn.res.Ev("list_settings_where_tag_overrides_outer_policy", 1)
@@ -617,6 +794,13 @@ func (rn *runner) listMonitors(st *stype, c *cval, pre reflect.Value, pc polCtx)
 					rn.res.Ev("list_settings_where_merge_tag_overrides_outer_policy", 1)
 				}
 			}
+		case kArrayComp:
+			state := "onto-filled"
+			if !fpre.IsValid() || fpre.IsZero() {
+				state = "onto-zero"
+			}
+			rn.res.Ev("composite_array_settings", 1)
+			rn.res.SetAdd("composite_array", f.shape()+":"+state+":"+fpc.src+":"+fpc.pol)
 		case kConfig:
 			state := "onto-filled"
 			if !fpre.IsValid() || fpre.IsNil() {
@@ -644,21 +828,28 @@ func (check) Run(seed int64, tier string, idx int, verbose bool) harness.Result 
 	r := rand.New(rand.NewSource(harness.Mix(seed, "C13", idx)))
 	tr := rand.New(rand.NewSource(harness.Mix(seed, "C13type", idx/typeGroup)))
 
-	top := genTop(tr)
+	typ := genTop(tr)
+	top := describe(typ, "config")  // the type as the default struct tag reads it
+	topAlt := describe(typ, altTag) // ... and as StructTag(altTag) reads it
 	rn := &runner{res: res, top: top, gopt: globals[r.Intn(len(globals))], verbose: verbose, cfgs: map[uintptr]*model.Node{}}
 	g := &vgen{r: r, cfgs: rn.cfgs}
 	rn.master = reflect.New(top.typ).Elem()
 	g.fillStruct(top, rn.master)
-	var stats cfgStats
+	var stats, statsAlt cfgStats
 	cfg := g.cfgStruct(top, rn.master, true, &stats)
+	cfgAlt := g.cfgStruct(topAlt, rn.master, true, &statsAlt)
 
 	res.SetAdd("global_option_of_failure_half", rn.gopt.name)
-	if top.typ == tLibTop {
+	switch {
+	case top.typ == tLibTop:
 		res.SetAdd("top_level", "hand-written")
-	} else {
+	case top.selfUnpacks:
+		res.SetAdd("top_level", "self-unpacking:"+top.typ.Name())
+	default:
 		res.SetAdd("top_level", "generated")
 	}
 	rn.monitors(top, "top")
+	tagDifferences(res, top, topAlt)
 	res.Ev("settings_mentioned", int64(stats.mentioned))
 	res.Ev("fields_unmentioned", int64(stats.unmentioned))
 	res.Ev("explicit_nulls", int64(stats.nulls))
@@ -676,14 +867,47 @@ func (check) Run(seed int64, tier string, idx int, verbose bool) harness.Result 
 	if verbose {
 		fmt.Printf("type   %v\nconfig %s\npre    %s\n", top.typ, renderGo(cfg.toGo()), render(rn.master))
 	}
-	// success half under every global option, failure half under the drawn one
+	// success half: under every global option with the default struct tag;
+	// the same type is also unpacked under StructTag(altTag) -- once somewhere
+	// among those calls (before the first one included) and once after them --
+	// and finally under the default tag again. Failure half under the drawn
+	// global option and one struct tag.
 	drawn := rn.gopt
-	for _, o := range globals {
-		rn.gopt = o
-		rn.listMonitors(top, cfg, rn.master, o.pc)
-		rn.success(cfg)
+	type step struct {
+		st  *stype
+		cfg *cval
+		o   globalOpt
 	}
+	var steps []step
+	for _, o := range globals {
+		steps = append(steps, step{top, cfg, o})
+	}
+	at := r.Intn(len(steps) + 1)
+	steps = append(steps[:at], append([]step{{topAlt, cfgAlt, globals[r.Intn(len(globals))]}}, steps[at:]...)...)
+	steps = append(steps, step{topAlt, cfgAlt, drawn}, step{top, cfg, drawn})
+	seq := ""
+	for i, sp := range steps {
+		rn.top, rn.gopt = sp.st, sp.o
+		rn.listMonitors(sp.st, sp.cfg, rn.master, sp.o.pc)
+		rn.success(sp.cfg)
+		if i > 0 && steps[i-1].st != sp.st {
+			res.Ev("struct_tag_switches_between_unpacks_of_one_type", 1)
+		}
+		if sp.st == topAlt {
+			res.Ev("unpacks_under_second_struct_tag", 1)
+			seq += "a"
+		} else {
+			seq += "c"
+		}
+	}
+	res.SetAdd("struct_tag_sequence", seq)
 	rn.gopt = drawn
+	rn.top = top
+	if r.Intn(3) == 0 {
+		rn.top, cfg = topAlt, cfgAlt
+		top = topAlt
+	}
+	res.SetAdd("struct_tag_of_failure_half", rn.top.tagKey)
 
 	var pos [][]*field
 	positions(top, nil, &pos)
@@ -710,6 +934,9 @@ func (check) Run(seed int64, tier string, idx int, verbose bool) harness.Result 
 			}
 			first = kind
 			rn.failure(cfg, p, fault, kind, len(pos), i)
+			if rn.top.selfUnpacks {
+				res.Ev("fault_runs_into_self_unpacking_top_level", 1)
+			}
 		}
 	}
 
